@@ -235,6 +235,17 @@ func (c *Conn) StartTLS(cert tls.Certificate, timeout time.Duration) error {
 	return c.StartTLSMax(cert, 0, timeout)
 }
 
+// StartTLSDemandClientCert starts a TLS 1.2 handshake that demands a client certificate: a client without one gets
+// the handshake aborted by an alert of the SERVER (a TLS policy failure decided on the other side).
+func (c *Conn) StartTLSDemandClientCert(cert tls.Certificate, timeout time.Duration) error {
+	tc := tls.Server(c.Raw, &tls.Config{Certificates: []tls.Certificate{cert}, MinVersion: tls.VersionTLS12, MaxVersion: tls.VersionTLS12,
+		ClientAuth: tls.RequireAnyClientCert})
+	c.Raw.SetDeadline(time.Now().Add(timeout))
+	err := tc.Handshake()
+	c.Raw.SetDeadline(time.Time{})
+	return err
+}
+
 // StartTLSMax is StartTLS with an upper bound on the protocol version (0 = none).
 func (c *Conn) StartTLSMax(cert tls.Certificate, max uint16, timeout time.Duration) error {
 	// bytes already buffered belong to the clear text phase; none are expected
